@@ -246,15 +246,32 @@ def analyze(ctx, tier, observable):
         rn = g.rules[ri]
         names = ["EOI"] + g.rules
         sid_, form, hx, ia, ib, f = rtcat.split_line(a)
+        tv = f["P"][:f["P"].index("=")] if f["P"].startswith("ok@") else "fail"
         if a != b:
+            # the model no longer describes the code: look for a failing input of the PROPERTY among the disagreeing
+            # cases (implementation vs the PEG spec, which does not depend on the model of the runtime)
             t2_bad += 1
-            if gn not in reported and len(reported) < 5:
+            gv0 = gg[:gg.index(":")] if gg.startswith("ok@") else gg
+            direct = None
+            if observable == "offset" and tv != gv0 and (gv0 == "fail" or gv0.startswith("ok@")):
+                direct = ("typed %s, PEG spec / pest %s" % (tv, gv0))
+            elif observable == "tokens" and tv.startswith("ok@") and gv0.startswith("ok@"):
+                atomic_idx0 = {i + 1 for i, nm in enumerate(g.rules) if g.kinds[nm] in ("atomic", "compound")}
+                want = show_toks(prune(parse_toks(gg[gg.index(":") + 1:]), atomic_idx0))
+                if f.get("TK") != want:
+                    direct = "typed pair tree %s, pest's pruned tree %s" % (str(f.get("TK"))[:120], want[:120])
+            if direct and ws_variant_env(g) is None:
+                if ("direct", gn) not in reported and len(reported) < 8:
+                    reported.add(("direct", gn))
+                    ctx.violation("typed parser differs from pest's PEG semantics (%s) on rule %s: %s (and the model no longer matches the code)"
+                                  % (observable, rn, direct),
+                                  {"grammar": g.text, "rule": rn, "input_hex": hx, "impl": a, "model": b, "spec": gg, "pest": pe})
+            elif gn not in reported and len(reported) < 8:
                 reported.add(gn)
                 ctx.violation("model/implementation correspondence broken on derived grammar %s rule %s" % (gn, rn),
                               {"grammar": g.text, "rule": rn, "input_hex": hx, "impl": a, "model": b,
                                "broken": "correspondence Sem.v vs the derived typed parser"}, found_input=False)
             continue
-        tv = f["P"][:f["P"].index("=")] if f["P"].startswith("ok@") else "fail"
         gv = gg[:gg.index(":")] if gg.startswith("ok@") else gg
         # ---- the spec against real pest (validates Model/PegSpec.v on every case where pest has an answer)
         pe2 = pest_to_idx(pe, names)
